@@ -58,6 +58,15 @@ class GenV:
         self.kwargs = kwargs
 
 
+class Iter2V:
+    """iter(callable, sentinel): the callable is called once per step of
+    the consuming loop, which ends when it returns the sentinel."""
+
+    def __init__(self, func, sentinel):
+        self.func = func
+        self.sentinel = sentinel
+
+
 class CtxGenV(GenV):
     """What a ``@contextlib.contextmanager`` function returns: entered by
     running the generator to its yield, the ``with`` body runs there (an
@@ -209,6 +218,7 @@ class Interp:
         self.on_method = None       # hook(term, name, args, kwargs)
         self.stubs = {}             # in-repo qualname -> behaviour
         self.on_yield = None        # hook(interp, value) for generators
+        self.pure_prefixes = ()     # dotted prefixes of side-effect-free libs
         self.guide = None           # evaluator(term) for lazy enumeration
         self.pure_methods = set()   # method names kept as pure terms
         self.rebind_methods = {}    # name -> f(interp, base term, args)
@@ -477,7 +487,8 @@ class Interp:
         targs = tuple(self.termify(a) for a in args) + tuple(
             T('kw', k, self.termify(v)) for k, v in sorted(kwargs.items()))
         self.effect('call', name, targs)
-        if name in self.pure_calls:
+        if name in self.pure_calls or (
+                self.pure_prefixes and name.startswith(self.pure_prefixes)):
             t = T('call', name, *targs)
             if name in self.ret_types:
                 self.types[t] = self.ret_types[name]
@@ -1168,6 +1179,13 @@ class Interp:
                 items = [K(x) for x in v.v]
             elif isinstance(v, (K, DictV, SetV, Obj)):
                 return False        # str / bytes / mappings are no sequences
+            elif isinstance(v, T) and (self.guide is not None or (
+                    v.op == 'mcall' and v.args[1] in (
+                        'split', 'rsplit', 'partition', 'rpartition',
+                        'splitlines'))):
+                # a list made by a str method: its length is explored (or,
+                # following one input, known)
+                items = list(self.iterate(v))
             else:
                 raise Inexact('sequence pattern on a symbolic value')
             stars = [i for i, q in enumerate(p.patterns)
@@ -1278,6 +1296,25 @@ class Interp:
 
     def st_For(self, s, fr):
         it = self.eval(s.iter, fr)
+        if isinstance(it, Iter2V):
+            from . import models
+            n = 0
+            while True:
+                v = self.call(it.func, [])
+                if self.truth(models.compare(self, ast.Eq(), v,
+                                             it.sentinel)):
+                    self.exec_block(s.orelse, fr)
+                    return
+                n += 1
+                if n > max(self.world.loop_bound, 8):
+                    raise _PathCut()
+                self.assign(s.target, v, fr)
+                try:
+                    self.exec_block(s.body, fr)
+                except _Break:
+                    return
+                except _Continue:
+                    continue
         if isinstance(it, GenV):
             broke = []
 
@@ -1436,8 +1473,44 @@ class Interp:
             out = []
             self.run_generator(it, out.append)
             return out
+        if isinstance(it, Iter2V):
+            from . import models
+            out = []
+            while True:
+                v = self.call(it.func, [])
+                if self.truth(models.compare(self, ast.Eq(), v,
+                                             it.sentinel)):
+                    return out
+                out.append(v)
+                if len(out) > max(self.world.loop_bound, 8):
+                    raise _PathCut()
         if isinstance(it, Obj) and '__iter_items__' in it.fields:
             return list(it.fields['__iter_items__'])
+        if isinstance(it, Obj) and it.cls is not None and \
+                it.cls.lookup('__iter__')[0] is not None:
+            # the iterator protocol of a repo class: __iter__() once, then
+            # __next__() until StopIteration (a generator __iter__ runs
+            # inline)
+            iterator = self.call(self.get_attr(it, '__iter__'), [])
+            if iterator is not it:
+                return self.iterate(iterator)
+            nxt = self.get_attr(it, '__next__', missing_ok=True)
+            if nxt is None:
+                raise AbsRaise(T('exc', 'TypeError',
+                                 'iter() returned non-iterator'))
+            out = []
+            while True:
+                if len(out) > 64:
+                    raise Inexact('iterator of %s did not stop' %
+                                  it.cls.name)
+                try:
+                    out.append(self.call(self.get_attr(it, '__next__'), []))
+                except AbsRaise as r:
+                    cls = self.exc_class_of(r.exc)
+                    if cls is not None and exc_is_subclass(
+                            cls, ExtRef('StopIteration')):
+                        return out
+                    raise
         if isinstance(it, T):
             fixed = self.world.sym_iter_len.get(it)
             if fixed is None and self.world.sym_iter_hook is not None:
@@ -1915,12 +1988,33 @@ class Interp:
 
     def ex_List(self, e, fr):
         out = []
+        segments = []       # closed ListV segments and symbolic sequences
         for x in e.elts:
             if isinstance(x, ast.Starred):
-                out.extend(self.iterate(self.eval(x.value, fr)))
+                v = self.eval(x.value, fr)
+                if isinstance(v, T) and (self.guide is None or
+                                         self._guided_len(v) is None):
+                    # [a, *seq] with a symbolic seq: one concatenation term
+                    # instead of a fork on the length of seq
+                    if out:
+                        segments.append(ListV(out))
+                        out = []
+                    t = T('call', 'list', v)
+                    self.types[t] = 'list'
+                    segments.append(t)
+                else:
+                    out.extend(self.iterate(v))
             else:
                 out.append(self.eval(x, fr))
-        return ListV(out)
+        if not segments:
+            return ListV(out)
+        if out:
+            segments.append(ListV(out))
+        acc = self.termify(segments[0])
+        for seg in segments[1:]:
+            acc = T('binop', '+', acc, self.termify(seg))
+            self.types[acc] = 'list'
+        return acc
 
     def ex_Set(self, e, fr):
         return SetV([self.eval(x, fr) for x in e.elts])
@@ -1963,13 +2057,42 @@ class Interp:
             if isinstance(v, ast.Constant):
                 parts.append(K(v.value))
             else:
-                parts.append(self.termify(self.eval(v.value, fr)))
+                parts.append(self.ex_FormattedValue(v, fr))
         if all(isinstance(p, K) for p in parts):
             return K(''.join(str(p.v) for p in parts))
-        return T('fstr', *parts)
+        t = T('fstr', *parts)
+        self.types[t] = 'str'
+        return t
 
     def ex_FormattedValue(self, e, fr):
-        return self.termify(self.eval(e.value, fr))
+        """{value!conv:spec} -> constant when everything is constant, else
+        a term ``fmtval(value, conv, spec)`` (plain ``{value}`` of a str-typed
+        term is the term itself)."""
+        val = self.eval(e.value, fr)
+        spec = K('')
+        if e.format_spec is not None:
+            spec = self.eval(e.format_spec, fr)
+        conv = {-1: '', 115: 's', 114: 'r', 97: 'a'}.get(e.conversion, '')
+        if isinstance(val, K) and isinstance(spec, K):
+            x = val.v
+            try:
+                if conv == 's':
+                    x = str(x)
+                elif conv == 'r':
+                    x = repr(x)
+                elif conv == 'a':
+                    x = ascii(x)
+                return K(format(x, spec.v))
+            except Exception as ex:
+                from . import models
+                raise models.py_exc(self, ex)
+        tv = self.termify(val)
+        if conv in ('', 's') and spec == K('') and isinstance(tv, T) and \
+                self.types.get(tv) == 'str':
+            return tv
+        t = T('fmtval', tv, conv, self.termify(spec))
+        self.types[t] = 'str'
+        return t
 
     def ex_Starred(self, e, fr):
         raise Inexact('starred expression')
